@@ -27,6 +27,10 @@ class Entry:
         self.thorough = list(thorough) if thorough is not None else list(quick)
         self.domain = domain
         self.tags = set(tags)
+        # configurations of a named boundary family (see CLASSES): a consumer that caps the number of configurations per block keeps these
+        self.keep = []
+        # configurations that build and run but whose output VALUE no documentation defines: only range-type monitors (C06) use them
+        self.range_only = []
         # the quick tier always includes, for every numeric position of the configuration, a configuration reaching the smallest
         # value any thorough configuration has there (minimum legal widths / counts / constants are where special cases live)
         def flat(c):
@@ -67,6 +71,16 @@ def add(*a, **k):
 
 def by_prop(prop):
     return [e for e in ENTRIES if e.prop == prop]
+
+
+# configuration classes: label -> {entry name: [cfg, ...]}; CONTROL_PINS: entry name -> f(cfg) -> indices (in the ins list) of the
+# control inputs documented / used as one bit
+CLASSES = {}
+CONTROL_PINS = {}
+
+
+def classify(name, cfg):
+    return [k for k, d in CLASSES.items() if cfg in d.get(name, ())]
 
 
 def by_name(name):
@@ -305,7 +319,7 @@ def _shc(cls_name):
 def _shc_grid(ws):
     out = []
     for a in ws:
-        for n in sorted({0, 1, a - 1, a, a + 1, 2 * a + 1}):
+        for n in sorted({0, 1, a - 1, a, a + 1, 2 * a, 2 * a + 1, 3 * a}):
             if n < 0:
                 continue
             for r in sorted({1, a, a + 2, max(1, a - 1)}):
@@ -629,12 +643,15 @@ add('SumOfMinterms', 'C08', b_som, lambda c, v: [int(v[0] in c[1])], _SOM, _SOM 
 
 def b_sw(parent, cfg, mk):
     w = cfg[0]
-    A = mk('a', w); B = mk('b', w); S = mk('s', 1); RA = mk('ra', w); RB = mk('rb', w)
+    # optional 2nd element: width of the control wire
+    A = mk('a', w); B = mk('b', w); S = mk('s', cfg[1] if len(cfg) > 1 else 1); RA = mk('ra', w); RB = mk('rb', w)
     P().Swap(parent, 'd', A, B, S, RA, RB)
     return [A, B, S], [RA, RB]
 
 
-add('Swap', 'C08', b_sw, lambda c, v: [v[1], v[0]] if v[2] else [v[0], v[1]], [(1,), (2,), (4,), (8,), (32,)], _W1_T)
+# a control wire wider than one bit: the documentation only defines control values 0 (pass) and 1 (exchange)
+add('Swap', 'C08', b_sw, lambda c, v: [v[1], v[0]] if v[2] else [v[0], v[1]], [(1,), (2,), (4,), (8,), (32,)], _W1_T,
+    domain=lambda c, v: v[2] <= 1)
 
 
 def b_eq(parent, cfg, mk):
@@ -786,7 +803,8 @@ def b_m2(parent, cfg, mk):
     return [S, A, B], [R]
 
 
-# Mux2: 1-bit select is the documented interface
+# Mux2: "Only the LSB of the select signal is considered; higher bits are ignored" (select wires wider than one bit: see the
+# wide_control class below)
 add('Mux2', 'C08', b_m2, lambda c, v: [v[2] if v[0] & 1 else v[1]], [(1, 1), (3, 1), (8, 1), (32, 1)], [(w, 1) for w in GRID + SPOT])
 
 
@@ -806,10 +824,20 @@ add('Constant', 'C08', b_const, lambda c, v: [c[1]], [(1, 0), (1, 1), (4, 9), (8
 # --------------------------------------------------------------------------- sizes beyond a machine word
 # Python integers are unbounded but floats, numpy scalars, struct formats and Verilog literals are not: every block also runs at
 # 64 bits, just above (65) and well above (100) -- beyond the 53 bits a double holds -- in both tiers.
-def extend(names, cfgs, quick=True):
+def extend(names, cfgs, quick=True, cls=None, range_only=False):
     for n in names if isinstance(names, (list, tuple)) else [names]:
         e = by_name(n)
         for c in cfgs:
+            if cls:
+                CLASSES.setdefault(cls, {}).setdefault(n, [])
+                if c not in CLASSES[cls][n]:
+                    CLASSES[cls][n].append(c)
+                if c not in e.keep:
+                    e.keep.append(c)
+            if range_only:
+                if c not in e.range_only:
+                    e.range_only.append(c)
+                continue
             if quick and c not in e.quick:
                 e.quick.append(c)
             if c not in e.thorough:
@@ -850,6 +878,71 @@ extend(['ConcatenateMSBF', 'ConcatenateLSBF'], [((32, 32), 64), ((33, 32), 65), 
 extend('Mux2', [(64, 1), (65, 1), (100, 1)])
 extend('Constant', [(64, (1 << 64) - 1), (65, 1 << 64), (100, (1 << 99) + 12345), (64, -1), (64, 0x9E3779B97F4A7C15)])
 extend(['PriorityEncoder(inc=True)', 'PriorityEncoder(inc=False)'], [(9,), (17,), (33,), (2, 3), (3, 2), (4, 4), (2, 8)])
+
+
+# --------------------------------------------------------------------------- control wires wider than one bit
+# Every selector / gate whose control port is documented or used as one bit, handed a control WIRE of 2, 3 and 5 bits where the
+# constructor accepts one (BufEnable, Select, OneHotMux and OneHotDemux refuse it: Repeat demands a 1-bit input). The reference
+# follows the documentation: Mux2 looks at the LSB only; Swap and SelectDefault define the control values 0 and 1 only, other
+# values are outside the documented domain and are not judged.
+_CW = (2, 3, 5)
+
+
+def b_sd_wide(parent, cfg, mk):
+    n, w, sw = cfg
+    sels = [mk('s%d' % j, sw) for j in range(n)]
+    ins = [mk('i%d' % j, w) for j in range(n)]
+    D = mk('df', w); R = mk('r', w)
+    P().SelectDefault(parent, 'd', sels, ins, D, R)
+    return sels + ins + [D], [R]
+
+
+_SDW = [(n, w, sw) for n, w in [(1, 2), (2, 1), (2, 8), (3, 1)] for sw in _CW if n * sw + (n + 1) * w <= 12 or w == 8]
+add('SelectDefault(wide selects)', 'C08', b_sd_wide, lambda c, v: [next((v[c[0] + j] for j in range(c[0]) if v[j]), v[2 * c[0]])],
+    _SDW, _SDW + [(4, 2, 2), (3, 16, 3)], domain=lambda c, v: sum(v[:c[0]]) <= 1)
+extend('SelectDefault(wide selects)', by_name('SelectDefault(wide selects)').thorough, quick=False, cls='wide_control')
+extend('SelectDefault(wide selects)', _SDW, cls='wide_control')
+extend('Mux2', [(w, sw) for w in (1, 2, 3, 8, 32) for sw in _CW], cls='wide_control')
+extend('Mux2', [(w, sw) for w in (5, 16, 64, 65) for sw in _CW + (8, 33)], quick=False, cls='wide_control')
+extend('Swap', [(w, sw) for w in (1, 2, 8) for sw in _CW], cls='wide_control')
+extend('Swap', [(w, sw) for w in (3, 4, 32, 65) for sw in _CW + (8,)], quick=False, cls='wide_control')
+CONTROL_PINS['Mux2'] = lambda c: [0]
+CONTROL_PINS['Swap'] = lambda c: [2]
+CONTROL_PINS['SelectDefault(wide selects)'] = lambda c: list(range(c[0]))
+
+
+# --------------------------------------------------------------------------- constant parameters at their boundaries
+# Blocks with a constant parameter: the boundary family of the parameter {0, 1, w-1, w, w+1, 2w, 3w} (as far as the constructor and the
+# evaluation accept it) crossed with result wires narrower than / equal to / wider than the natural width. Inputs: the sweeps drive
+# all-ones and MSB-only vectors (exhaustive below 12 bits, boundary values above; C06: extreme_vectors).
+#  - Shift*Constant accept every n >= 0 (grid above: _shc_grid).
+#  - Rotate*Constant accept 0 <= n <= w (n > w raises "negative shift count" in propagate on the pinned tree: not a legal configuration).
+#    A rotation by 0 or by the width is the identity; into a narrower result wire the value is reduced mod 2**(result width). Into a
+#    WIDER result wire the blocks leave the bits shifted out of the operand in place (no documentation defines that): range_only.
+def _rot_family(ws, wider=False):
+    out = []
+    for a in ws:
+        for n in sorted({0, 1, max(0, a - 1), a}):
+            rs = {a + 1, a + 3} if wider else {1, max(1, a // 2), max(1, a - 1), a}
+            for r in sorted(rs):
+                out.append((a, n, r))
+    return out
+
+
+_ROTN = ['RotateLeftConstant', 'RotateRightConstant']
+extend(_ROTN, _rot_family([1, 2, 3, 4, 8, 32, 65]), cls='param_boundary')
+extend(_ROTN, _rot_family(GRID + SPOT + [100]), quick=False, cls='param_boundary')
+extend(_ROTN, _rot_family([1, 3, 8, 32], wider=True), cls='param_boundary', range_only=True)
+_SHN = ['ShiftLeftConstant', 'ShiftRightConstant']
+extend(_SHN, [c for c in _shc_grid([1, 3, 4, 8, 32]) if c[1] in (0, c[0], 2 * c[0], 3 * c[0])], cls='param_boundary')
+# Range bounds at the ends of the operand (whole wire, top bit, bottom bit) with narrower / equal / wider result wires
+extend('Range', [(w, h, l, r) for w in (1, 3, 8, 32) for h, l in ((w - 1, 0), (w - 1, w - 1), (0, 0), (w - 1, w // 2))
+                 for r in sorted({1, max(1, h - l), h - l + 1, h - l + 3})], cls='param_boundary')
+# Constant values around the capacity of the wire
+extend('Constant', [(w, k) for w in (1, 4, 8, 64) for k in (0, 1, (1 << w) - 1, 1 << w, (1 << w) + 1, 2 << w, 3 << w, -1, -(1 << w), -(1 << w) - 1)],
+       cls='param_boundary')
+# Repeat counts (the count is the result width) around a machine word
+extend('Repeat', [(w,) for w in (1, 2, 3, 31, 32, 33, 63, 64, 65)], cls='param_boundary')
 
 
 def input_cases(widths, rnd, exhaustive_bits, max_cases, n_random):
